@@ -172,25 +172,24 @@ Proof.
   - assert (Hno : ~ has_sel_target f a).
     { intros Hh. apply has_target_nonempty in Hh; [|exact Hnd1]. congruence. }
     destruct (Hs2 Hno) as [Hm0 [Hm1 [Hex Hres]]].
-    destruct (nonempty (ts_get (f_esel f) a)) eqn:E2.
+    apply andb_true_iff. split; [apply andb_true_iff; split |].
     + apply negb_true_iff. apply mem_false. intros Hin. apply Hex.
       apply ts_get_In in Hin; [|exact Hnd2]. exact Hin.
-    + apply andb_true_iff. split.
-      * apply negb_true_iff. apply mem_false. cbn [In]. intros [H|[H|[]]]; congruence.
-      * apply negb_true_iff. destruct (Z.eqb_spec a test) as [Heq|Hne]; [|reflexivity].
-        cbn [andb]. apply Hres in Heq. apply reserved_components in Heq.
-        destruct Heq as [H1 [H2 [H3 [H4 [H5 H6]]]]].
-        rewrite ?H1, ?H2, ?H3, ?H4, ?H5, ?H6. reflexivity.
+    + apply negb_true_iff. apply mem_false. cbn [In]. intros [H|[H|[]]]; congruence.
+    + apply negb_true_iff. destruct (Z.eqb_spec a test) as [Heq|Hne]; [|reflexivity].
+      cbn [andb]. apply Hres in Heq. apply reserved_components in Heq.
+      destruct Heq as [H1 [H2 [H3 [H4 [H5 H6]]]]].
+      rewrite ?H1, ?H2, ?H3, ?H4, ?H5, ?H6. reflexivity.
 Qed.
 
-(* exactness when no selector of a is excluded, or selectors of a are targeted *)
+(* exactness, for all filter sets: targeted selectors override exclusion; otherwise the
+   state-changing, non-excluded, non-reserved functions *)
 Lemma selector_exact : forall f test a m,
   NoDup (map fst (f_tsel f)) -> NoDup (map fst (f_esel f)) ->
-  (has_sel_target f a \/ forall s, ~ sel_excluded f a s) ->
   (selector_selected (f_tsel f) (f_esel f) a test m = true <->
    spec_selector f test a (m_sig m) (m_sel m) (m_mut m)).
 Proof.
-  intros f test a m Hnd1 Hnd2 Hc. split; [|apply selector_cover; assumption].
+  intros f test a m Hnd1 Hnd2. split; [|apply selector_cover; assumption].
   unfold selector_selected, spec_selector.
   destruct (nonempty (ts_get (f_tsel f) a)) eqn:E1.
   - intros H. apply mem_In in H. apply ts_get_In in H; [|exact Hnd1]. split.
@@ -198,36 +197,19 @@ Proof.
     + intros Hn. exfalso. apply Hn. apply has_target_nonempty; assumption.
   - assert (Hno : ~ has_sel_target f a).
     { intros Hh. apply has_target_nonempty in Hh; [|exact Hnd1]. congruence. }
-    destruct Hc as [Hc|Hc]; [contradiction|].
-    destruct (nonempty (ts_get (f_esel f) a)) eqn:E2.
-    + apply nonempty_ex in E2. destruct E2 as [x Hx]. apply ts_get_In in Hx; [|exact Hnd2].
-      exfalso. apply (Hc x). exact Hx.
-    + intros H. apply andb_true_iff in H. destruct H as [Hmut Hres].
-      apply negb_true_iff in Hmut. apply mem_false in Hmut. cbn [In] in Hmut.
-      split; [intros Hh; contradiction|]. intros _.
-      split; [intros Heq; apply Hmut; left; symmetry; exact Heq|].
-      split; [intros Heq; apply Hmut; right; left; symmetry; exact Heq|].
-      split; [apply Hc|].
-      intros Heq. apply negb_true_iff in Hres. apply Z.eqb_eq in Heq. rewrite Heq in Hres.
-      cbn [andb] in Hres.
-      repeat (apply orb_false_iff in Hres; destruct Hres as [Hres ?]).
-      unfold reserved_sig.
-      repeat match goal with H : _ = false |- _ => rewrite H; clear H end. reflexivity.
-Qed.
-
-(* with an exclusion list for a (and no targeted selector) halmos also selects view / pure
-   functions, and the reserved entry points of the test contract *)
-Lemma selector_exact_refuted :
-  exists f test a m,
-    NoDup (map fst (f_tsel f)) /\ NoDup (map fst (f_esel f)) /\
-    selector_selected (f_tsel f) (f_esel f) a test m = true /\
-    ~ spec_selector f test a (m_sig m) (m_sel m) (m_mut m).
-Proof.
-  exists (mkFilters [] [] [] [(5, [9])] [] []), 1, 5, (mkMethod "get()" 7 1).
-  split; [constructor|]. split; [repeat constructor; intros []|]. split; [reflexivity|].
-  intros [_ H].
-  assert (Hno : ~ has_sel_target (mkFilters [] [] [] [(5, [9])] [] []) 5) by (intros [s [l [[] _]]]).
-  destruct (H Hno) as [_ [H1 _]]. cbn in H1. congruence.
+    intros H. apply andb_true_iff in H. destruct H as [H Hres].
+    apply andb_true_iff in H. destruct H as [Hexc Hmut].
+    apply negb_true_iff in Hmut. apply mem_false in Hmut. cbn [In] in Hmut.
+    apply negb_true_iff in Hexc. apply mem_false in Hexc.
+    split; [intros Hh; contradiction|]. intros _.
+    split; [intros Heq; apply Hmut; left; symmetry; exact Heq|].
+    split; [intros Heq; apply Hmut; right; left; symmetry; exact Heq|].
+    split; [intros Hx; apply Hexc; apply ts_get_In; [exact Hnd2 | exact Hx]|].
+    intros Heq. apply negb_true_iff in Hres. apply Z.eqb_eq in Heq. rewrite Heq in Hres.
+    cbn [andb] in Hres.
+    repeat (apply orb_false_iff in Hres; destruct Hres as [Hres ?]).
+    unfold reserved_sig.
+    repeat match goal with H : _ = false |- _ => rewrite H; clear H end. reflexivity.
 Qed.
 
 (* ================================================================== frontier *)
@@ -460,7 +442,6 @@ Section FrontierProofs.
   Hypothesis Hstep : forall ss cs tx cs',
     gamma ss cs -> adm cs tx -> cstep cs tx = Some cs' ->
     exists t s', In t (targets ss) /\ In (OOk s') (sstep ss t) /\ gamma (refresh ss s') cs'.
-  Hypothesis Hmerge0 : forall q b cs, sid b = sid setup -> gamma (refresh q b) cs -> gamma setup cs.
 
   Lemma cover : forall d cs0 txs cs,
     gamma setup cs0 -> creach cstep adm cs0 txs cs -> (length txs <= d)%nat ->
@@ -473,10 +454,10 @@ Section FrontierProofs.
       rewrite app_length in Hlen |- *. cbn [length] in Hlen |- *.
       destruct (IH s1 Hg0 Hr1 ltac:(lia)) as [j [ss [Hj [Hin Hg]]]].
       destruct (Hstep ss s1 tx cs Hg Ha Hs) as [t [s' [Ht [Ho Hg']]]].
-      assert (HI : Inv [sid setup] ([] ++ [setup])).
-      { intros b q c [Heq|[]] Hgb. exists setup. split; [left; reflexivity|].
-        eapply Hmerge0; [symmetry; exact Heq | exact Hgb]. }
-      destruct (explore_succ d [setup] [sid setup] [] HI j ss t s' cs ltac:(lia) Hin Ht Ho Hg')
+      (* nothing is visited before the first transaction: the setUp state is not registered *)
+      assert (HI : Inv (initial_visited SS sid setup) ([] ++ [setup])).
+      { unfold initial_visited, setup_registered_as_visited. intros b q c []. }
+      destruct (explore_succ d [setup] (initial_visited SS sid setup) [] HI j ss t s' cs ltac:(lia) Hin Ht Ho Hg')
         as [k [Hgk [[]|[i [Hi Hk]]]]].
       exists i, k. split; [lia|]. split; [exact Hk | exact Hgk].
   Qed.
@@ -505,30 +486,7 @@ Section FrontierProofs.
   Qed.
 End FrontierProofs.
 
-(* ================================================================== refutations *)
-(* F9: block fields are not part of the state id.  Explicit-state instance (gamma = eq):
-   per-transaction completeness holds, yet the sequence r(); n() is not represented. *)
-Lemma roll_step_complete : forall ss cs tx cs',
-  ss = cs -> True -> RollInst.cstep cs tx = Some cs' ->
-  exists t s', In t (RollInst.targets ss) /\ In (OOk s') (RollInst.sstep ss t) /\ RollInst.refresh ss s' = cs'.
-Proof.
-  intros ss cs tx cs' Heq _ Hs. subst ss. exists tx, cs'. split.
-  - destruct tx; cbn; auto.
-  - split; [|reflexivity]. unfold RollInst.sstep. rewrite Hs. left. reflexivity.
-Qed.
-
-Lemma roll_refuted :
-  let ev := evaluated RollInst.St RollInst.tx RollInst.targets RollInst.sstep RollInst.sid RollInst.refresh RollInst.setup 2 in
-  creach RollInst.cstep (fun _ _ => True) RollInst.setup [RollInst.Roll; RollInst.Need] (1, 5) /\
-  RollInst.inv_ok (1, 5) = false /\
-  ev = [RollInst.setup] /\
-  verdict_pass RollInst.St RollInst.tx RollInst.targets RollInst.sstep RollInst.sid RollInst.refresh RollInst.setup RollInst.inv_ok 2 = true.
-Proof.
-  cbv zeta. split; [|split; [reflexivity|split; reflexivity]].
-  eapply creach_cons; [exact I | reflexivity |].
-  eapply creach_cons; [exact I | reflexivity | constructor].
-Qed.
-
+(* ================================================================== instances *)
 (* merging a post-state with the setUp state forgets that time may pass after the call *)
 Lemma ts_step_complete : forall ss cs tx cs',
   TsInst.gamma ss cs -> TsInst.adm cs tx -> TsInst.cstep cs tx = Some cs' ->
@@ -548,16 +506,17 @@ Proof.
       split; [left; reflexivity|]. unfold TsInst.gamma. cbn. split; [reflexivity | lia].
 Qed.
 
-Lemma ts_refuted :
+(* a post-state with the id of the setUp state is kept (time may pass after the call): noop(); late() is covered *)
+Lemma ts_covered :
   let ev := evaluated TsInst.sst TsInst.tgt TsInst.targets TsInst.sstep TsInst.sid TsInst.refresh TsInst.setup 2 in
   TsInst.gamma TsInst.setup (0, 1) /\
   creach TsInst.cstep TsInst.adm (0, 1) [TsInst.Noop 100; TsInst.Late 100] (1, 100) /\
-  ev = [TsInst.setup] /\ ~ TsInst.gamma TsInst.setup (1, 100).
+  ev = [TsInst.setup; TsInst.mkS 0 1 false; TsInst.mkS 1 100 false] /\ TsInst.gamma (TsInst.mkS 1 100 false) (1, 100).
 Proof.
   cbv zeta. split; [split; reflexivity|]. split.
   - eapply creach_cons; [unfold TsInst.adm; cbn; lia | reflexivity |].
     eapply creach_cons; [unfold TsInst.adm; cbn; lia | reflexivity | constructor].
-  - split; [reflexivity|]. intros [H _]. cbn in H. discriminate.
+  - split; [reflexivity|]. split; [reflexivity | cbn; lia].
 Qed.
 
 (* F12: an assertion failure inside a target is recorded as a probe only *)
@@ -595,7 +554,6 @@ Lemma cover_full :
     (forall p a q b cs, sid a = sid b -> gamma (refresh q b) cs -> gamma (refresh p a) cs) ->
     (forall ss cs tx cs', gamma ss cs -> adm cs tx -> cstep cs tx = Some cs' ->
         exists t s', In t (targets ss) /\ In (OOk s') (sstep ss t) /\ gamma (refresh ss s') cs') ->
-    (forall q b cs, sid b = sid setup -> gamma (refresh q b) cs -> gamma setup cs) ->
     forall d cs0 txs cs,
       gamma setup cs0 -> creach cstep adm cs0 txs cs -> (length txs <= d)%nat ->
       exists j ss, (j <= length txs)%nat /\
@@ -603,29 +561,21 @@ Lemma cover_full :
                    In ss (evaluated SS Tgt targets sstep sid refresh setup d) /\
                    gamma ss cs.
 Proof.
-  intros SS Tgt targets sstep sid refresh setup CS Tx cstep adm gamma Hm Hs Hm0 d cs0 txs cs H0 Hr Hl.
-  destruct (cover SS Tgt targets sstep sid refresh setup CS Tx cstep adm gamma Hm Hs Hm0 d cs0 txs cs H0 Hr Hl)
+  intros SS Tgt targets sstep sid refresh setup CS Tx cstep adm gamma Hm Hs d cs0 txs cs H0 Hr Hl.
+  destruct (cover SS Tgt targets sstep sid refresh setup CS Tx cstep adm gamma Hm Hs d cs0 txs cs H0 Hr Hl)
     as [j [ss [Hj [Hin Hg]]]].
   exists j, ss. repeat split; try assumption. unfold evaluated. eapply in_nth_concat. exact Hin.
 Qed.
 
-Lemma merge_identical_refuted :
-  (forall ss cs tx cs', ss = cs -> True -> RollInst.cstep cs tx = Some cs' ->
-     exists t s', In t (RollInst.targets ss) /\ In (OOk s') (RollInst.sstep ss t) /\ RollInst.refresh ss s' = cs') /\
-  creach RollInst.cstep (fun _ _ => True) RollInst.setup [RollInst.Roll; RollInst.Need] (1, 5) /\
-  RollInst.inv_ok (1, 5) = false /\
-  evaluated RollInst.St RollInst.tx RollInst.targets RollInst.sstep RollInst.sid RollInst.refresh RollInst.setup 2 = [RollInst.setup] /\
-  verdict_pass RollInst.St RollInst.tx RollInst.targets RollInst.sstep RollInst.sid RollInst.refresh RollInst.setup RollInst.inv_ok 2 = true.
-Proof. split; [exact roll_step_complete | exact roll_refuted]. Qed.
-
-Lemma merge_setup_refuted :
+Lemma setup_state_not_merged :
   (forall ss cs tx cs', TsInst.gamma ss cs -> TsInst.adm cs tx -> TsInst.cstep cs tx = Some cs' ->
      exists t s', In t (TsInst.targets ss) /\ In (OOk s') (TsInst.sstep ss t) /\ TsInst.gamma (TsInst.refresh ss s') cs') /\
   TsInst.gamma TsInst.setup (0, 1) /\
   creach TsInst.cstep TsInst.adm (0, 1) [TsInst.Noop 100; TsInst.Late 100] (1, 100) /\
-  evaluated TsInst.sst TsInst.tgt TsInst.targets TsInst.sstep TsInst.sid TsInst.refresh TsInst.setup 2 = [TsInst.setup] /\
-  ~ TsInst.gamma TsInst.setup (1, 100).
-Proof. split; [exact ts_step_complete | exact ts_refuted]. Qed.
+  evaluated TsInst.sst TsInst.tgt TsInst.targets TsInst.sstep TsInst.sid TsInst.refresh TsInst.setup 2 =
+    [TsInst.setup; TsInst.mkS 0 1 false; TsInst.mkS 1 100 false] /\
+  TsInst.gamma (TsInst.mkS 1 100 false) (1, 100).
+Proof. split; [exact ts_step_complete | exact ts_covered]. Qed.
 
 (* ================================================================== the targets run from a frontier state *)
 (* (account, function) pairs run by _compute_frontier / run_target_contract: for every resolved target
